@@ -229,6 +229,9 @@ def corruptions(doc, ver, clsname=None, dictionary=None):
             out.append(_set(("id",), "tlp:other-instance-id=" + color, m.tlp[color]))
             if "name" in doc:
                 out.append({"path": ["definition", "tlp"], "op": "set", "kind": "tlp:other-colour-and-name=" + color, "value": color, "also_set_top": {"name": "TLP:" + color.upper()}})
+                out.append(_set(("name",), "tlp:other-instance-name=" + color, "TLP:" + color.upper()))
+        if "name" in doc:
+            out.append(_set(("name",), "tlp:other-name", "foo"))
     out.append(_set(("type",), "type:other", "identity" if doc.get("type") != "identity" else "malware"))
     out.append(_set(("type",), "type:unknown", "no-such-type"))
     return out
